@@ -5,6 +5,6 @@ CONSTANTS
   Intruders = {3}
   Checks <- AllChecks
   ForgedKinds <- AllKinds
-  MaxForged = 1
+  MaxForged = 0
   MaxDup = 0
 INVARIANTS TypeOK HistoryClean TransitionSound ConsumedClean EqualKeys KeyFromOperating MisbehavedIsExcluded OperatingNeverFail IntrudersNeverJoin IntruderFailsAtRoundThree
